@@ -4,7 +4,7 @@ import os, re, shutil
 import cli
 
 PROP = "C16"
-PAR_OK = True
+PAR_OK = lambda c: '(gen concurrent)' not in c['sx']
 LEVEL = "proof"
 RULE = ("every generator of tree/treegen.go (uniform, yule, caterpillar, balanced, star, star from names, AllTopologies), "
         "rooted and unrooted, sizes from 0 up to 40 (thorough: 150; balanced depth 0..6, thorough 8; enumerator n 0..7 "
@@ -57,6 +57,12 @@ def gen(rng, tier):
         out.append(case("topologies", n, False, 1, 0))
     for n in range(0, rmax + 1):
         out.append(case("topologies", n, True, 1, 0))
+    # several goroutines generating at once (shared state between calls shows up as corrupted trees)
+    for which, n in [("uniform", 30), ("uniform", 200), ("yule", 40), ("caterpillar", 40), ("balanced", 5), ("star", 30), ("topologies", 5)]:
+        for rooted in (False, True):
+            out.append({"sx": sx({"gen": Sym("concurrent"), "which": Sym(which), "n": n, "rooted": rooted, "k": 8,
+                                  "per": 6 if which == "topologies" else 40}),
+                        "meta": {"gen": "concurrent:" + which, "n": n, "rooted": rooted}})
     # math/rand itself on crafted streams: Int31n rejection loop, Float64 retry (x >= 2^63-512)
     top = 2 ** 63
     for _ in range({"quick": 40, "thorough": 400, "search": 20}[tier]):
@@ -84,6 +90,11 @@ def gen(rng, tier):
     out.append(case("topologies", 5, False, 1, 0, ["e", "b", "a", "d", "c"]))
     out.append(case("topologies", 4, True, 1, 0, ["z", "y", "x", "w"]))
     out.append(case("topologies", 4, False, 1, 0, ["a", "b", "c"]))
+    for n in range(2, 7):
+        for rooted in (False, True):
+            names = ["s%d_%d" % (rng.randrange(100), i) for i in range(n)]
+            rng.shuffle(names)
+            out.append(case("topologies", n, rooted, 1, 0, names))
     return out
 
 def _f(case, k):
